@@ -106,6 +106,9 @@ func runSeq(owners ...string) func(t *testing.T, scAny any, trace bool) *Outcome
 		if sc.CRace != nil {
 			return runCreateRace(t, sc, trace)
 		}
+		if sc.Acc != nil {
+			return runAccessRace(t, sc, trace)
+		}
 		if sc.Conc != nil {
 			o := keepOwned(runC29All(t, sc.Conc, trace), owners...)
 			o.NonTrivial = true
@@ -227,6 +230,9 @@ func shrinkSeq(scAny any) []any {
 	}
 	if sc.CRace != nil {
 		return shrinkCreateRace(sc)
+	}
+	if sc.Acc != nil {
+		return shrinkAccessRace(sc)
 	}
 	if sc.Conc != nil {
 		var out []any
@@ -1403,6 +1409,11 @@ func genC11(r *simrt.Rand, tier string) any {
 // ----- C12 -----
 
 func genC12(r *simrt.Rand, tier string) any {
+	if r.Pct(15) {
+		// concurrent class: ACCESS after an acknowledged chmod while older look-ups of the object are in flight
+		ar := genAccessRace(r)
+		return &SeqScn{Kind: "C12", Acc: ar, Sched: ar.Sched}
+	}
 	sc := &SeqScn{Kind: "C12", Cfg: genCfg(r), Cred: RootCred, ThinkM: []int{0, 1, 100, 6000}[r.Int(4)], Sched: SeqSched(r.Uint64())}
 	sc.Cfg.ReadOnly = false
 	sc.Tree = genTree(r, 1+r.Int(2), 1+r.Int(2), r.Int(2))
@@ -1602,7 +1613,7 @@ func init() {
 		mixGen(genC07, 60, "C07"), "C07.")
 	seqProp("C11", "one case = a history of 8-28 CREATE/MKDIR/SYMLINK/SETATTR calls with sattr3 uid/gid set to foreign ids, issued under drawn credentials (boundary uids/gids, 0-16 aux gids, AUTH_NONE) and squash modes in mixed case, per-operation credential switches; monitor on the backend call log: every Chown/Lchown issued for a request whose effective uid (reference squash function) is not 0 carries exactly the caller's effective uid/gid; after a successful CREATE/MKDIR/SYMLINK the new inode's owner in the backend is the caller's effective identity; a quarter of the cases inject backend errors (chtimes, chmod, lstat, stat, truncate, close - not the chown itself) so that recovery paths run under the same monitor; a fifth of the cases are the concurrent class: one SETATTR from an effective root assigning uid and/or gid and 1-3 SETATTRs from callers that are not root (mode, times or size; 30% also naming foreign ids) for ONE object at the same time, each on its own connection, 2-4 workers, 0-2 backend calls stalled 0.2-80 ms, start offsets 0-3 ms, every lock/unlock/channel/network interleaving decided by the seeded scheduler - every Chown the backend is asked for carries the ids the root request set, and once the root request is answered OK they are the owner on record; in 30% of the concurrent cases nobody is root: the object is removed first (the clients keep their handles for the name) and a CREATE of the same name by one caller races with the others' SETATTRs through the old handles - the only owner anybody may record, and the owner on record afterwards, is the creator's own identity; non-trivial = at least one operation; distinct by event digest",
 		genC11, "C11.")
-	seqProp("C12", "one case = a history in which root SETATTRs mode (all 12 bits) and owner of files and directories and callers in drawn owner/group/aux-group/other relations (and uid 0) issue ACCESS with all 64 masks, with the attribute TTL and think time drawn (so ACCESS is answered from cached or fresh attributes) and read-only switched on at runtime in 30% of runs; oracle on every ACCESS reply of every workload: granted subset of requested and equal to the UNIX owner/group/other rule applied to the mode/uid/gid carried in that reply and the caller's effective identity, LOOKUP/DELETE only on directories, no MODIFY/EXTEND/DELETE when read-only; 20% of the cases make a SETATTR fail half-way and then the backend's lstat fail for good: an ACCESS that still answers NFS3_OK must have decided on the object's real mode and owner; stratified sampling of the 4096 x classes x 64 x 2 space (not exhausted); non-trivial = at least one ACCESS; distinct by event digest",
+	seqProp("C12", "one case = a history in which root SETATTRs mode (all 12 bits) and owner of files and directories and callers in drawn owner/group/aux-group/other relations (and uid 0) issue ACCESS with all 64 masks, with the attribute TTL and think time drawn (so ACCESS is answered from cached or fresh attributes) and read-only switched on at runtime in 30% of runs; oracle on every ACCESS reply of every workload: granted subset of requested and equal to the UNIX owner/group/other rule applied to the mode/uid/gid carried in that reply and the caller's effective identity, LOOKUP/DELETE only on directories, no MODIFY/EXTEND/DELETE when read-only; 20% of the cases make a SETATTR fail half-way and then the backend's lstat fail for good: an ACCESS that still answers NFS3_OK must have decided on the object's real mode and owner; 15% of the cases are the concurrent class: 1-3 readers (GETATTR or ACCESS, 1-3 times each, callers in owner/group/aux-group/other relation) look at ONE file or directory while root changes its permission bits (SETATTR, or for a file an UNCHECKED CREATE of the existing name carrying sattr3.mode), 0-2 backend lstat/stat/chmod calls of the object stalled or answering late by 0.2-80 ms, attribute TTL 1 ms/2 s/1 h, 2-5 workers, every interleaving decided by the seeded scheduler; once the change has been acknowledged a prober sends ACCESS(0x3f): the reply must carry the new mode and grant exactly what the rule gives for it (nothing changes the object after the acknowledgement, whatever older look-ups are still in flight), and every reader's ACCESS reply carries the old or the new mode and obeys the rule for it; stratified sampling of the 4096 x classes x 64 x 2 space (not exhausted); non-trivial = at least one ACCESS; distinct by event digest",
 		mixGen(genC12, 80, "C12"), "C12.")
 	seqProp("C25", "one case = a C01-style WRITE/SETATTR(size)/READ history with MaxFileSize in {1,100,1000,4096,5000,10000} set at construction (60%) or by UpdateExportOptions in mid-history (40%), offsets and sizes biased to the limit +-2; oracle: a WRITE or SETATTR(size) that would grow a file beyond the limit gets NFS3ERR_FBIG and leaves the file unchanged (backend == byte-array model after every operation), requests within the limit succeed as without it; non-trivial = at least one operation; distinct by event digest",
 		genC25, "C25.")
